@@ -267,14 +267,17 @@ def memGrow (mem : Bytes) (size : Nat) : Bytes :=
 -- ---------------------------------------------------------------------------------------------------------------------
 -- Spec data movement (pointwise)
 
-/-- n bytes starting at `off`; positions past the end read as zero -/
+/-- n bytes starting at `off`; positions past the end read as zero
+    (`specRead_meaning`: byte i of the result is data[off+i], or 0 if there is no such position) -/
 def specRead (data : Bytes) (off n : Nat) : Bytes :=
-  let d := data.drop off
-  (List.range n).map fun i => d.getD i 0
+  let d := (data.drop off).take n
+  d ++ List.replicate (n - d.length) 0
 
-/-- memory with positions [off, off + |bs|) replaced by bs (positions outside the memory do not exist) -/
+/-- memory with positions [off, off + |bs|) replaced by bs; positions outside the memory do not exist
+    (`specWrite_meaning`: position i holds bs[i-off] if off ≤ i < off+|bs|, else what it held) -/
 def specWrite (mem : Bytes) (off : Nat) (bs : Bytes) : Bytes :=
-  mem.mapIdx fun i b => if off ≤ i ∧ i < off + bs.length then bs.getD (i - off) 0 else b
+  if off ≥ mem.length then mem
+  else mem.take off ++ bs.take (mem.length - off) ++ mem.drop (off + bs.length)
 
 /-- the 32 bytes of a word, most significant first -/
 def specWord (v : Nat) : Bytes := (List.range 32).map fun i => UInt8.ofNat (v / 256 ^ (31 - i) % 256)
